@@ -32,11 +32,10 @@ def hexN : Nat → Nat → Str      -- width, value
   | 0, _ => []
   | w + 1, v => hexN w (v / 16) ++ [hexDigit (v % 16)]
 
-/-- one character of `repr(str)` (CPython unicode_repr) with quote `q` -/
-def reprCharStr (q : Nat) (c : PChar) : Str :=
+/-- `repr(str)` of one character that is neither the quote in use nor a backslash (CPython unicode_repr) -/
+def reprRestStr (c : PChar) : Str :=
   let cp := c.cp
-  if cp == q || cp == BS then [BS, cp]
-  else if cp == 9 then [BS, 116]
+  if cp == 9 then [BS, 116]
   else if cp == 10 then [BS, 110]
   else if cp == 13 then [BS, 114]
   else if cp < 32 || cp == 127 then [BS, 120] ++ hexN 2 cp
@@ -46,15 +45,22 @@ def reprCharStr (q : Nat) (c : PChar) : Str :=
   else if cp < 65536 then [BS, 117] ++ hexN 4 cp
   else [BS, 85] ++ hexN 8 cp
 
-/-- one byte of `repr(bytes)` with quote `q` -/
-def reprCharBytes (q : Nat) (c : PChar) : Str :=
+/-- one character of `repr(str)` with quote `q`: only the quote in use and the backslash get a backslash -/
+def reprCharStr (q : Nat) (c : PChar) : Str :=
+  if c.cp == q || c.cp == BS then [BS, c.cp] else reprRestStr c
+
+/-- `repr(bytes)` of one byte that is neither the quote in use nor a backslash -/
+def reprRestBytes (c : PChar) : Str :=
   let cp := c.cp
-  if cp == q || cp == BS then [BS, cp]
-  else if cp == 9 then [BS, 116]
+  if cp == 9 then [BS, 116]
   else if cp == 10 then [BS, 110]
   else if cp == 13 then [BS, 114]
   else if cp < 32 || cp ≥ 127 then [BS, 120] ++ hexN 2 cp
   else [cp]
+
+/-- one byte of `repr(bytes)` with quote `q` -/
+def reprCharBytes (q : Nat) (c : PChar) : Str :=
+  if c.cp == q || c.cp == BS then [BS, c.cp] else reprRestBytes c
 
 /-- `repr(s)` without prefix and surrounding quotes -/
 def reprBody (isBytes : Bool) (q : Nat) (s : PS) : Str :=
